@@ -387,6 +387,7 @@ func runC19(args []string) {
 	close(next)
 	wg.Wait()
 	c19Directory(r, bebopfmt, validSchema, parse)
+	c19MixedAndAbsent(r, bebopfmt, bebopc, validSchema, dupSchema, missingImport, syntaxErr, parse)
 	r.Set("cells", len(cells))
 	finish(r)
 }
@@ -531,4 +532,112 @@ func c19Directory(r *core.Run, bebopfmt, valid string, parse func([]byte) (*mode
 		}
 	}
 	os.RemoveAll(d)
+}
+
+// c19MixedAndAbsent: (a) bebopfmt -w with several path arguments of which one cannot be processed,
+// in every position: the error must be reported, the exit status non-zero, the bad file unchanged,
+// the good files either unchanged or still the same schema; (b) bebopc-go runs that fail while the
+// -o file does not exist yet: "keeps its previous contents" means there is still no such file.
+func c19MixedAndAbsent(r *core.Run, bebopfmt, bebopc, valid, dup, missingImport, syntaxErr string, parse func([]byte) (*model.File, bool)) {
+	good2 := "struct   Messy{int32   a;string b;}\nmessage M2 {1->int32 x;}\n"
+	type arglist struct {
+		name string
+		argv []string
+	}
+	lists := []arglist{
+		{"bad-then-good", []string{"bad.bop", "good.bop"}},
+		{"good-then-bad", []string{"good.bop", "bad.bop"}},
+		{"good-bad-good", []string{"good.bop", "bad.bop", "good2.bop"}},
+		{"dir-with-bad-then-good", []string{"sub", "good.bop"}},
+		{"good-then-dir-with-bad", []string{"good.bop", "sub"}},
+		{"missing-then-good", []string{"nowhere.bop", "good.bop"}},
+	}
+	for _, al := range lists {
+		d := filepath.Join(work(), "c19mixed")
+		os.RemoveAll(d)
+		os.MkdirAll(filepath.Join(d, "sub"), 0o755)
+		files := map[string]string{"good.bop": valid, "good2.bop": good2, "bad.bop": syntaxErr, "sub/inner_bad.bop": syntaxErr, "sub/inner_good.bop": good2}
+		for n, t := range files {
+			os.WriteFile(filepath.Join(d, n), []byte(t), 0o644)
+		}
+		argv := append([]string{bebopfmt, "-w"}, al.argv...)
+		res := runCLI(d, argv, "", "")
+		r.Eval("bebopfmt|mixed-arguments|" + al.name)
+		loc := map[string]string{"tool": "bebopfmt", "input": "mixed-arguments", "fault": "none", "arguments": al.name}
+		detail := map[string]any{"argv": argv[1:], "exit": res.exit, "stdout": core.Short(res.stdout, 300), "stderr": core.Short(res.stderr, 300)}
+		if res.timeout {
+			r.Inconclusive("tool run timed out")
+			continue
+		}
+		rep := errorReported(res)
+		if !rep || res.exit == 0 {
+			if rep {
+				loc["mismatch"] = "message-with-exit-0"
+			} else if res.exit != 0 {
+				loc["mismatch"] = "nonzero-exit-without-message"
+			} else {
+				loc["mismatch"] = "silent-success"
+			}
+			r.Violate("exit status and error reporting disagree", loc, detail)
+		}
+		for n, t := range files {
+			after, err := os.ReadFile(filepath.Join(d, n))
+			if strings.Contains(n, "bad") {
+				if err != nil || string(after) != t {
+					detail["file"] = n
+					r.Violate("failed run damaged the target file", loc, detail)
+				}
+				continue
+			}
+			of, ok1 := parse([]byte(t))
+			af, ok2 := parse(after)
+			if err != nil || !ok1 || !ok2 {
+				detail["file"] = n
+				r.Violate("bebopfmt -w succeeded but the rewritten file does not parse", loc, detail)
+				continue
+			}
+			if df := schema.Diff(*of, *af, schema.DiffOpts{IgnoreComments: true, IgnoreFileName: true}); df != "" {
+				detail["file"], detail["diff"] = n, df
+				r.Violate("bebopfmt -w succeeded but the rewritten file denotes a different schema", loc, detail)
+			}
+		}
+		os.RemoveAll(d)
+	}
+	// (b) failing bebopc-go runs without a pre-existing output file
+	for _, in := range []struct{ name, text string }{{"validation-error", dup}, {"missing-import", missingImport}, {"syntax-error", syntaxErr},
+		{"undefined-type", "struct A {\n    Nope n;\n}\n"}, {"duplicate-opcode", "[opcode(1)]\nstruct A {\n    int32 a;\n}\n[opcode(1)]\nstruct B {\n    int32 b;\n}\n"},
+		{"recursive-struct", "struct A {\n    B b;\n}\nstruct B {\n    A a;\n}\n"}} {
+		d := filepath.Join(work(), "c19absent")
+		os.RemoveAll(d)
+		os.MkdirAll(d, 0o755)
+		os.WriteFile(filepath.Join(d, "in.bop"), []byte(in.text), 0o644)
+		argv := []string{bebopc, "-i", "in.bop", "-o", "out.go", "-package", "gen", "-combined-imports"}
+		res := runCLI(d, argv, "", "")
+		r.Eval("bebopc-go|absent-target|" + in.name)
+		loc := map[string]string{"tool": "bebopc-go", "input": in.name, "fault": "none", "target": "absent-before"}
+		detail := map[string]any{"argv": argv[1:], "exit": res.exit, "stdout": core.Short(res.stdout, 300), "stderr": core.Short(res.stderr, 300)}
+		if res.timeout {
+			r.Inconclusive("tool run timed out")
+			continue
+		}
+		if res.exit == 0 {
+			r.Violate("tool reports success on an input it cannot process", loc, detail)
+		}
+		if st, err := os.Stat(filepath.Join(d, "out.go")); err == nil {
+			detail["target_bytes_after"] = st.Size()
+			loc["target"] = "created"
+			r.Violate("failed run damaged the target file", loc, detail)
+		}
+		ents, _ := os.ReadDir(d)
+		if len(ents) != 1 {
+			var names []string
+			for _, e := range ents {
+				names = append(names, e.Name())
+			}
+			detail["directory_after"] = names
+			loc["target"] = "left-over-files"
+			r.Violate("failed run damaged the target file", loc, detail)
+		}
+		os.RemoveAll(d)
+	}
 }
